@@ -293,6 +293,7 @@ def run(ctx):
     shared.eof_is_the_only_end_of_data(ctx, '6')            # empty / header-less files are recognised by UnexpectedEof on a complete-header read only
     shared.record_goes_to_the_table_it_names(ctx, '46')      # an action is validated against the table it names
     write_length_validated(ctx, '47')                         # what the applier writes is bounded by what the validator accepted
+    free_list_walks_bounded(ctx, '48')                        # links read from a table file are followed only inside the file, for a bounded number of steps
     record_id_arithmetic(ctx, '7')                            # ids read from a file are never fed to overflow-checked / wrapping `+ 1`
 
 
@@ -385,3 +386,74 @@ def write_length_validated(ctx, p):
         ctx.ob(p + 'b value-write-length-validated', 'K9-agreement', va.path,
                'the validator refuses a record whose written length (the expression the applier uses as the end of the slice it writes) is greater than the entry size of the table',
                bool(hit), 'applier writes buf[0..%s]; validator compares: %s' % (show(e)[:160], [('%s %s %s' % (show(g[2])[:90], g[1], show(g[3])[:60])) for g in guards][:3]), ap.loc(bi))
+
+
+def free_list_walks_bounded(ctx, p):
+    """F73. The head of a value table's free list comes from the table header, the links from tombstones - bytes that replay wrote
+    from a log record. Whoever follows them reads the table file at `link * entry_size`: the link has to be checked against the
+    size of the FILE (TableFile.capacity; the fill mark is itself a header value) before the read, and a walk over links must
+    stop after a number of steps bounded by the table (a tombstone linked to itself otherwise spins for ever). The validator
+    refuses a header whose free slot is not below its fill mark."""
+    F = ctx.F
+    cap_checkers = set(pth for pth, b in F.bodies.items() if pth.startswith('table::') and any(call_matches(t, ['re:Atomic.*::load$']) and '.TableFile.capacity' in lib.receiver_fields(b, t, 0) for _, t in b.calls())
+                       and core.error_exit_blocks(b))
+    n = 0
+    for pth, b in sorted(F.bodies.items()):
+        if not pth.startswith('table::ValueTable::') or '{closure' in pth:
+            continue
+        # a follower of free-list links: reads a slot of the file and then the link stored in it, without a marker test of the
+        # chained-value kind (those are the value chains, reached from an index entry)
+        names = [c for _, t in b.calls() for c in core.call_names(t)]
+        if not any(re.search(r'Entry::<.*>::read_next$', c) for c in names) or any(re.search(r'Entry::<.*>::is_multi(head|part)?$', c) for c in names):
+            continue
+        reads = [bi for bi, t in b.calls() if bi in b.normal_blocks() and call_matches(t, ['file::TableFile::read_at'])]
+        if not reads:
+            continue
+        n += 1
+        checks = [bi for bi, t in b.calls() if bi in b.normal_blocks() and any(c in cap_checkers for c in core.call_names(t))]
+        loops = _loops(b)
+        for r in reads:
+            heads = [h for h, body_, lat in loops if r in body_]
+            start = heads[:1] or [0]
+            w = b.find_path(start, {r}, removed=set(checks), sensitive=False)
+            ctx.ob(p + 'a link-checked-against-the-file-before-it-is-followed %s' % pth, 'K7-bound', pth,
+                   'a slot number taken from the free-list head or from a tombstone link is compared with the capacity of the file (not only with the fill mark, which is a header value too) before the table file is read there',
+                   bool(checks) and w is None, 'no capacity check' if not checks else 'read reachable without the check: ' + lib.short_path(b, w), b.loc(r))
+            for h, body_, lat in loops:
+                if r not in body_:
+                    continue
+                # a step bound: an error exit inside the loop decided by a count of the steps (Vec::len / a counter) against filled / written
+                bounded = False
+                for bi in sorted(body_):
+                    t = b.term(bi)
+                    if t['k'] != 'switch' or op_place(t['a']) is None:
+                        continue
+                    sl = backward_slice(b, [op_place(t['a'])], through_calls=True)
+                    counts = any(re.search(r'Vec::<.*>::len$|VecDeque.*::len$', c) for c in sl.calls) or any(
+                        d[2] == 'assign' and d[3]['r']['k'] == 'bin' and d[3]['r']['op'].startswith('Add') and d[0] in body_ and any(a.get('i') == 1 for a in d[3]['r']['a'])
+                        for l in sl.locals for d in b.defs().get(l, []))
+                    limit = '.ValueTable.filled' in sl.fields or '.ValueTable.written' in sl.fields or any(1 <= l <= b.argc for l in sl.params)
+                    leaves = any(x in core.error_exit_blocks(b) or any(e in b.reachable_from([x], removed=body_ - {x}) for e in core.error_exit_blocks(b)) for x in t['ts'] if x not in body_ or True)
+                    if counts and limit and leaves and '.TableFile.capacity' not in sl.fields:
+                        bounded = True
+                ctx.ob(p + 'b free-list-walk-terminates %s' % pth, 'K7-bound', pth,
+                       'a loop that follows free-list links counts its steps and gives up with an error when the count reaches the size of the table (links read from a file can form a cycle)',
+                       bounded, 'no step bound in the loop at %s' % b.loc(h), b.loc(h))
+    ctx.ob(p + '0 free-list-followers', 'anchor', 'table::ValueTable', 'the functions that follow free-list links read from the table file were found (table initialisation, slot reuse, the free-list check)', n >= 3 and len(cap_checkers) >= 1,
+           'followers %d, capacity checks %s' % (n, sorted(cap_checkers)))
+    va = ctx.body('table::ValueTable::validate_plan')
+    if va:
+        ok = False
+        for bi in sorted(va.normal_blocks()):
+            t = va.term(bi)
+            if t['k'] == 'switch' and op_place(t['a']) is not None:
+                sl = backward_slice(va, [op_place(t['a'])])
+                if any(re.search(r'Header::last_removed$', c) for c in sl.calls) and any(re.search(r'Header::filled$', c) for c in sl.calls) and ({'Ge', 'Lt', 'Gt', 'Le'} & set(sl.binops)):
+                    if any(e in va.reachable_from([x], removed={bi}) for x in t['ts'] for e in core.error_exit_blocks(va)):
+                        ok = True
+        ctx.ob(p + 'c header-free-slot-below-fill-mark', 'K3-guard', va.path, 'the validator compares the free-list head of a table header with its fill mark and refuses a head that is not below it', ok, '')
+
+
+def _loops(b):
+    from props import shared
+    return shared._natural_loops(b)
